@@ -137,6 +137,17 @@ STEER_MODES = [None, None, {"mode": "greedy"}, {"mode": "greedy", "bias": "edge"
                {"mode": "greedy", "bias": "low"}, {"mode": "greedy", "groups": ["time", "flag", "busy", "horizon"]}]
 
 
+def engine_nonoptimal(ev):
+    """did z3.Optimize hand out a model whose objective value is not the optimum of the
+    optimiser's own assertion set (judged by the referee in sim.engine)?  -> detail or None"""
+    for t in ev.get("trace", []):
+        if t.get("e") == "check" and t.get("referee"):
+            for o in t["referee"]:
+                if o["optimum"] is not None and o["reported"] != o["optimum"]:
+                    return o
+    return None
+
+
 class Check:
     pid = "C00"
     title = ""
